@@ -85,6 +85,11 @@ AncReq(in, addParent, addInit) ==
   IF AncOn(in, addParent) THEN (IF addInit THEN AncAll(in) ELSE AncAll(in) \ in.inits) ELSE {}
 Rank(x, R, in) == IF x \in Pset(R, in) THEN 0 ELSE IF x \in Bopt(in) THEN 1
                   ELSE IF x \in SetOf(in.added) THEN 2 ELSE 3
+\* an entry that may be dropped from the base ('' of an environment) and is also an added entry may stand
+\* in either place: its rank is an interval
+RankLo(x, R, in) == Rank(x, R, in)
+RankHi(x, R, in) == IF x \in (Bopt(in) \ Bmust(in)) \ Pset(R, in) /\ x \in SetOf(in.added) THEN 2
+                    ELSE Rank(x, R, in)
 
 C_NoDup(R)             == NoDup(R)
 C_ProjectFirst(R, in)  == in.smart => (R # <<>> /\ Denotes(R[1]) = in.proj)
@@ -95,7 +100,7 @@ C_AddedKept(R, in)     == /\ SetOf(in.added) \subseteq SetOf(R)
                           /\ LET S == SetOf(in.added) \ (Bopt(in) \cup Pset(R, in))
                              IN Restrict(R, S) = Restrict(FirstOccRef(in.added), S)
 \* project, then base, then added, then ancestors
-C_Sorted(R, in)        == \A i \in 1..Len(R) : \A j \in (i + 1)..Len(R) : Rank(R[i], R, in) <= Rank(R[j], R, in)
+C_Sorted(R, in)        == \A i \in 1..Len(R) : \A j \in (i + 1)..Len(R) : RankLo(R[i], R, in) <= RankHi(R[j], R, in)
 C_Ancestors(R, in, addParent, addInit) ==
                           \A d \in AncReq(in, addParent, addInit) : \E i \in 1..Len(R) : Denotes(R[i]) = d
 C_OnlyInside(R, in, addParent) ==
